@@ -12,7 +12,7 @@ import (
 // C01 — written samples are read back unchanged in frame-interleaved layout.
 
 type c01Case struct {
-	Kind       string // write | wstriped | read | rstriped
+	Kind       string // write | wstriped | read | rstriped | valrw (special values by bit pattern, valpass.go: only S, D, C matter)
 	S, D       string // element type of the slice(s) / of the buffer (write*), of the buffer / of the slice(s) (read*)
 	C, P, X, L int    // root of P frames, window [X, X+L)
 	R          int    // extra samples appended to the window (partly filled last frame)
@@ -126,6 +126,9 @@ func c01Run(cs c01Case) []F {
 }
 
 func c01RunRaw(cs c01Case) (fs []F) {
+	if cs.Kind == "valrw" {
+		return valReadWrite(typeByName(cs.S), typeByName(cs.D), cs.C)
+	}
 	fail := func(kind, format string, a ...any) {
 		fn := map[string]string{"write": "Write", "wstriped": "WriteStriped", "read": "Read", "rstriped": "ReadStriped"}[cs.Kind]
 		fs = append(fs, core.Failf(fn+"/"+kind, "%s: %s", c01Desc(cs), fmt.Sprintf(format, a...)))
@@ -605,6 +608,21 @@ func init() {
 				}
 				c.Eval(n, nt)
 			})
+			// special values (both zeros, NaN, infinities, smallest and largest magnitudes, integer bounds) that
+			// both element types hold, for every pair of element types of the same kind, by bit pattern
+			var vcases []c01Case
+			for _, s := range valTypes() {
+				for _, d := range valTypes() {
+					if dyn.Types[s].Kind != dyn.Types[d].Kind || !dyn.HasIO(s, d) {
+						continue
+					}
+					for C := 1; C <= 2; C++ {
+						vcases = append(vcases, c01Case{Kind: "valrw", S: tn(s), D: tn(d), C: C})
+					}
+				}
+			}
+			c.ParallelFor(len(vcases), func(i int) { c.Check(vcases[i], true, c01Run(vcases[i])) })
+			c.Set("special_value_cases", len(vcases))
 			c.Sample(c01Case{Kind: "wstriped", S: "int8", D: "float32", C: 3, P: 3, X: 1, L: 2, Lens: []int{-1, 3, 1}, Fam: 1})
 			c.Sample(c01Case{Kind: "read", S: "uint16", D: "int64", C: 2, P: 3, X: 1, L: 1, R: 1, Lens: []int{5}, Fam: 0})
 			c.Set("rule", fmt.Sprintf("all 169 slice/buffer element-type pairs (and 104 pairs with a named type MyInt16/MyUint8/MyFloat32/MyFloat64 on one side) x C in 1..%d x root of P<=%d frames x every frame-aligned window (X,L) x partly filled last frames (interleaved forms) x Write/Read with slice length nil,0..Len+2 and WriteStriped/ReadStriped with every combination of per-channel lengths from {nil,0..L+1} x two value families (distinct tokens; extremes of the integer range exactly representable in both types); after each call the whole parent storage, the shapes, the caller's slices and the return value are compared with the model, and what was written is read back with both readers; non-trivial = at least one sample is transferred; cases distinct by construction; in addition a sparse set of large shapes (roots of 9, 33, 130, 1025 frames, 1-3 channels, and 8, 9, 17, 65, 70, 256, 300 channels on short roots; 3 windows each, input lengths around the buffer length) for all 169 pairs, against size-threshold fast paths, and a few very long buffers (more than 2^21 samples, not round)", maxC, maxP))
